@@ -109,6 +109,11 @@ def make_files(tier, seed, mdl):
     files.append(b"a" * (3 * 1024 * 1024) + b"@b.com\nnext@line.com\n")                 # lines beyond any fixed or stack buffer
     files.append(b"x@y.zz\n" + b"\x01" * (2 * 1024 * 1024 + 17) + b"\n" + ("é" * (5 * 1024 * 1024)).encode() + b"@a.com")
     files.append(b"".join(rng.choice(valid) + b"\n" for _ in range(5000)))            # many lines in one file
+    nshort = 20000 if tier == "quick" else 100000                                       # per-line cost must not grow with the line number
+    files.append(b"".join((b"u%d@a.bc\n" % (i % 977)) if i % 5 else b"bad\n" for i in range(nshort)))
+    files.append(b"\xef\xbb\xbfuser@example.com\nsecond@example.org\n")              # byte-order mark in front of the first line
+    files.append(b"\r")
+    files.append(b"a@b.com\r\r\n\rx@y.org\n")
     files.append(b"".join((rng.choice(short) if i % 3 else rng.choice(valid)) + (b"\r\n" if i % 2 else b"\n") for i in range(3000)))
     while len(files) < nfiles:
         n = rng.choice([1, 2, 3, 5, 10, 40, 200])
@@ -182,6 +187,10 @@ def w_files(tool, libdir, exe, files, workdir, wid):
             mp = os.path.join(d, "missing%d" % group)
             pos = (group // 3) % (len(paths) + 1)
             paths.insert(pos, mp); kinds.insert(pos, "missing"); chunk = chunk[:pos] + [b""] + chunk[pos:]
+            # the same file named twice: both occurrences are processed
+            reg = [(pp, dd) for pp, kd, dd in zip(paths, kinds, chunk) if kd == "file" and pp != "/dev/stdin" and not pp.endswith(tuple(f for f, _ in fifo_jobs) or ("\x00",))]
+            if reg and len(reg[0][1]) < 200000:
+                paths.append(reg[0][0]); kinds.append("file"); chunk = chunk + [reg[0][1]]
             cnt["odd-argument-invocations"] += 1
         writers = []
         for fp, data in fifo_jobs:
@@ -284,7 +293,7 @@ def w_files(tool, libdir, exe, files, workdir, wid):
             exp_t.append((str(p_), str(len(ml) - p_)))
         if tallies != exp_t:
             part["viol"].append(("stderr-tally", wit, {"stderr": err[-400:], "expected": exp_t}))
-        for p, kd in zip(paths, kinds):
+        for p, kd in zip(sorted(set(paths), key=paths.index), [kinds[paths.index(q)] for q in sorted(set(paths), key=paths.index)]):
             try:
                 if kd == "dir":
                     os.rmdir(p)
